@@ -617,6 +617,10 @@ def domain(fx: Fixture, ent, attr, cur):  # pylint: disable=too-many-return-stat
     if name == "RootGroup" and attr in ("name", "allow_move", "allow_delete", "allow_rename"):
         raise Skip("hard-wired on the root group ('Hard wired attributes', groups/root.py:37-42): every reader shows the "
                    "fixed value, so there is no valid new value (the setter nevertheless accepts one and writes it)")
+    if name in ("CommentsData", "VisualParameters") and attr == "name":
+        raise Skip("the class of this data is recognised by its name ('UserComments' / 'Visual Parameters', "
+                   "workspace/workspace.py:411-426): another name makes every reader load it as plain TextData, so there "
+                   "is no valid new value")
     if name == "FilenameData" and attr == "public":
         raise Skip("hard-wired to False in the constructor (data/filename_data.py:33): no valid new value (the setter "
                    "nevertheless accepts True and writes it)")
